@@ -49,10 +49,11 @@ const (
 	opParseNullSig
 	opParseTruncSig
 	opReinsertEdited
+	opParseNullRows
 	nC10Ops
 )
 
-var c10names = [...]string{"insert(valid+code)", "insert(valid,no-code)", "insert(invalid)", "calculate", "edit-doc", "sign(k1)", "sign(k2)", "unsign", "add-stamp", "alter-stamp", "add-link", "validate", "verify(k1)", "roundtrip", `parse(sigs:[""])`, "parse(sigs:[null])", "parse(sigs:[truncated])", "reinsert(extracted+edited)"}
+var c10names = [...]string{"insert(valid+code)", "insert(valid,no-code)", "insert(invalid)", "calculate", "edit-doc", "sign(k1)", "sign(k2)", "unsign", "add-stamp", "alter-stamp", "add-link", "validate", "verify(k1)", "roundtrip", `parse(sigs:[""])`, "parse(sigs:[null])", "parse(sigs:[truncated])", "reinsert(extracted+edited)", "parse(null rows in links/stamps)"}
 
 type c10msig struct {
 	signer int
@@ -219,6 +220,36 @@ func c10run(c *Ctx, cx *c10env, seq []c10op, trans map[string]bool) (nontriv boo
 				m.digestOK = false
 			}
 			skipOutcome = true
+		case opParseNullRows:
+			// the serialised envelope with a null row put in front of its links and
+			// stamps (parsing accepts such rows; they carry no content)
+			b, merr := json.Marshal(env)
+			if merr != nil {
+				skipOutcome = true
+				break
+			}
+			n, _ := jmut.Parse(b)
+			touched := false
+			if hd := n.Get("head"); hd != nil && hd.K == jmut.Obj {
+				for _, k := range []string{"links", "stamps"} {
+					if l := hd.Get(k); l != nil && l.K == jmut.Arr && len(l.A) > 0 {
+						l.A = append([]*jmut.Node{jmut.Nl()}, l.A...)
+						touched = true
+					}
+				}
+			}
+			if touched {
+				ne := new(gobl.Envelope)
+				pan, _ = Safely(func() { err = json.Unmarshal(n.Bytes(), ne) })
+				if err == nil && pan == nil {
+					env = ne
+					if env.Head == nil {
+						env.Head = head.NewHeader()
+					}
+				}
+			}
+			err = nil
+			skipOutcome = true
 		case opReinsertEdited:
 			// extract the document, edit it in place, hand the same pointer back
 			doc := env.Extract()
@@ -257,8 +288,11 @@ func c10run(c *Ctx, cx *c10env, seq []c10op, trans map[string]bool) (nontriv boo
 			}
 			skipOutcome = true
 		case opAlterStamp:
-			if len(env.Head.Stamps) > 0 {
-				env.Head.Stamps[0].Value += "x"
+			for _, st := range env.Head.Stamps {
+				if st != nil { // (a parse may have put null rows in the list)
+					st.Value += "x"
+					break
+				}
 			}
 			skipOutcome = true
 		case opAddLink:
@@ -414,7 +448,7 @@ func c10run(c *Ctx, cx *c10env, seq []c10op, trans map[string]bool) (nontriv boo
 }
 
 func runC10(c *Ctx) {
-	c.R.Rule("operation sequences over the envelope API (18 operations incl. reinsert of the extracted, edited document, insert of valid / valid-without-code / invalid documents, calculate, edit, sign with two keys, unsign, stamps, links, validate, verify, round trip, parse of a serialised form whose sigs holds \"\", null or a truncated JWS): exhaustive up to length 4 (quick) / 5 (thorough) from a new envelope, plus every history insert → a → sign → b → observer, plus random sequences of length 6-15; non-trivial = the history contains a sign, round-trip or parse step; distinct by sequence")
+	c.R.Rule("operation sequences over the envelope API (19 operations incl. reinsert of the extracted, edited document, a parse with null rows in the header lists, insert of valid / valid-without-code / invalid documents, calculate, edit, sign with two keys, unsign, stamps, links, validate, verify, round trip, parse of a serialised form whose sigs holds \"\", null or a truncated JWS): exhaustive up to length 4 (quick) / 5 (thorough) from a new envelope, plus every history insert → a → sign → b → observer, plus random sequences of length 6-15; non-trivial = the history contains a sign, round-trip or parse step; distinct by sequence")
 	c.R.Assume("reference model: outcome of each step is a function of (document present/valid for signing, digest matches, signatures present, signed headers contained); a failed Sign removes all signatures (as documented in Envelope.Sign)")
 	docs, err := c10docs()
 	if err != nil {
